@@ -28,7 +28,10 @@ RULE = ("exhaustive: every set of distinct strict orders over 3 alternatives (2^
         "n <= 15: score ties), uniformly random sets of orders (m <= 6, n <= 7), a block dedicated to the n < m path "
         "(m in 5..8, 3 <= n < m: walks, walk+1, stars, orders near a common base); large planted single-crossing profiles (m <= 12, "
         "n <= 40) and large negatives (planted profile + embedded refuted core). "
-        "about half of the structured / random cases are relabelled to id sets containing 0 (falsy), ~8 % to huge ids "
+        "forks (near-miss negatives: a chain plus two neighbours of its end, m = 5..8); ~15 % of all cases first call "
+        "kendall_tau_distance(normalise=True) on the first two stored orders and other pairs (cross-call history); "
+        "~40 % of the structured cases (all forks) get small non-contiguous ids (random subsets of range(0,4m), "
+        "range(0,m*m)); about a quarter of the structured / random cases are relabelled to id sets containing 0 (falsy), ~8 % to huge ids "
         "(10**18, 2**64+1, 2**100); non-trivial = at least 3 distinct orders")
 EXHAUSTIVE = {"quick": "m=3: all subsets of the 6 orders in every storage order (ids 0..2 and 1..3); m=4: all sets of "
                        "<= 4 distinct orders, every storage order for n <= 3, {sorted, reversed, shuffled} for n = 4; "
@@ -157,25 +160,60 @@ HUGE_IDS = [10 ** 18, 10 ** 18 + 1, 2 ** 64 + 1, 2 ** 63, 2 ** 64, 2 ** 31, 2 **
             2 ** 100, 2 ** 64 - 1, 2 ** 53 + 1]
 
 
-def relabel(rl, c, huge=False):
-    """injective relabelling of the alternatives of a case to an id set containing 0 (and, if huge, very large ids);
-    the verdicts are invariant (theorem sc_relabel) but the case is judged afresh by the model anyway"""
+def relabel(rl, c, mode="with0"):
+    """injective relabelling of the alternatives of a case; the verdicts are invariant (theorem sc_relabel) but the
+    case is judged afresh by the model anyway.  modes: with0 (0 + small ids), huge (0 + very large ids),
+    small4m / smallmm (a random m-subset of range(0, 4m) / range(0, m*m): small NON-contiguous ids, where arithmetic
+    encodings of pairs of ids such as a*m+b collide)"""
     pl = c["payload"]
     alts = pl[0]
     m = len(alts)
-    if huge:
+    if mode == "huge":
         pool = rl.sample(HUGE_IDS, min(m - 1, len(HUGE_IDS)))
         pool += rl.sample(range(1, 50), m - 1 - len(pool))
+        new = [0] + pool
+    elif mode == "small4m":
+        new = rl.sample(range(0, 4 * m), m)
+    elif mode == "smallmm":
+        new = rl.sample(range(0, max(m * m, m + 1)), m)
     else:
-        pool = rl.sample(range(1, 3 * m + 2), m - 1)
-    new = [0] + pool
+        new = [0] + rl.sample(range(1, 3 * m + 2), m - 1)
     rl.shuffle(new)
     f = dict(zip(alts, new))
     pl[0] = [f[a] for a in alts]
     pl[1] = [[f[a] for a in o] for o in pl[1]]
     if c["op"] == "c04.core":
         pl[3] = [f[a] for a in pl[3]]
-    c["tags"]["ids"] = "huge+0" if huge else "with0"
+    c["tags"]["ids"] = mode
+
+
+def fork(rng, alts, k):
+    """near-miss negative: a chain c_0..c_k (k >= 1) plus two different adjacent-swap neighbours of its END c_k
+    (pairs not switched before).  From the first voter c_0 the only incomparable conflict sets are those of the two
+    neighbours, and they differ in exactly two pairs of alternatives."""
+    full = max_chain(rng, alts)
+    if len(full) < k + 3:
+        return None
+    start = rng.randint(0, len(full) - k - 3)
+    ch = [list(o) for o in full[start:start + k + 1]]
+    end = ch[-1]
+    done = disagree(ch[0], end) if k >= 1 else set()
+    cands = [i for i in range(len(end) - 1) if frozenset((end[i], end[i + 1])) not in done]
+    rng.shuffle(cands)
+    picks = []
+    for i in cands:
+        if all(abs(i - j) >= 2 for j in picks):
+            picks.append(i)
+        if len(picks) == 2:
+            break
+    if len(picks) < 2:
+        return None
+    out = ch
+    for i in picks:
+        x = list(end)
+        x[i], x[i + 1] = x[i + 1], x[i]
+        out = out + [x]
+    return out
 
 
 def mults(rng, n, heavy):
@@ -229,6 +267,15 @@ def generate(tier, seed):
     rng = random.Random(1000003 * seed + 4)
     quick = tier == "quick"
     out = []
+    # ---- self-contained cross-call-history cases first (fresh worker, so a failure caused by the history replays)
+    for i in range(40):
+        m = 3 + i % 4
+        alts = list(range(0, m)) if i % 2 else list(range(1, m + 1))
+        ch = sub_chain(rng, max_chain(rng, alts), 2 + i % 5)
+        if i % 3 == 0:
+            ch = star(rng, ch, m, 2)
+        rng.shuffle(ch)
+        out.append(mk(alts, ch, gen="history", hist=1))
     # ---- exhaustive m = 3: all 2^6 - 1 non-empty sets of orders, in EVERY storage order (1956 lists);
     #      alternatives 0,1,2 (id 0 included) and 1,2,3
     for alts3 in ([0, 1, 2], [1, 2, 3]):
@@ -411,6 +458,22 @@ def generate(tier, seed):
         elif i % 3 == 1:
             orders = orders[::-1]
         out.append(mk(alts, orders, mults(rng, len(orders), i % 2 == 0), gen=tag, lt=1))
+    # ---- forks (near-miss negatives), m = 5..8, always with small non-contiguous ids
+    nfork = 2500 if quick else 25000
+    made = 0
+    while made < nfork:
+        m = rng.randint(5, 8)
+        alts = list(range(1, m + 1))
+        orders = fork(rng, alts, rng.randint(1, 5))
+        if orders is None:
+            continue
+        how = made % 3
+        if how == 1:
+            orders = orders[::-1]
+        elif how == 2:
+            rng.shuffle(orders)
+        out.append(mk(alts, orders, mults(rng, len(orders), made % 2 == 0), gen="fork"))
+        made += 1
     # ---- large planted single-crossing profiles: witness check at full size
     nlarge = 60 if quick else 500
     for i in range(nlarge):
@@ -450,10 +513,24 @@ def generate(tier, seed):
     #      contains 0 (falsy in Python), and ~8 % of them to a set with huge ids (10**18, 2**64 + 1, ...)
     rl = random.Random(1000003 * seed + 404)
     for cs_ in out:
-        if cs_["tags"].get("gen") and cs_["tags"].get("gen") != "corpus":
+        g = cs_["tags"].get("gen")
+        if g and g != "corpus":
             u = rl.random()
-            if u < 0.5:
-                relabel(rl, cs_, huge=(u < 0.08))
+            if g == "fork":
+                relabel(rl, cs_, "small4m" if u < 0.6 else "smallmm")
+            elif u < 0.22:
+                relabel(rl, cs_, "with0")
+            elif u < 0.28:
+                relabel(rl, cs_, "huge")
+            elif u < 0.48:
+                relabel(rl, cs_, "small4m")
+            elif u < 0.62:
+                relabel(rl, cs_, "smallmm")
+    # ---- cross-call history: ~15 % of the cases first call kendall_tau_distance(..., normalise=True) on the first two
+    #      stored orders (both argument orders) and on a few other pairs, in the same worker call
+    for cs_ in out:
+        if rl.random() < 0.15 and len(cs_["payload"][1]) >= 2 and len(cs_["payload"][0]) >= 2:
+            cs_["tags"]["hist"] = 1
     return out
 
 
@@ -463,6 +540,21 @@ def impl(c):
     pl = c["payload"]
     alts, orders, mult = pl[0], pl[1], pl[2]
     inst = ordinal_instance([(strict(o), mu) for o, mu in zip(orders, mult)], data_type="soc", alts=alts)
+    if c["tags"].get("hist"):
+        # cross-call history through the public API (results not judged here: they belong to C20); a later plain
+        # call made by the recognisers must not be influenced by it
+        from preflibtools.properties.distances import kendall_tau_distance as _kt
+        ts = [tuple(o) for o in orders]
+        pairs_ = [(ts[0], ts[1]), (ts[1], ts[0])]
+        for t in ts[2:5]:
+            pairs_ += [(ts[0], t), (ts[1], t), (t, ts[0])]
+        if len(ts) >= 4:
+            pairs_ += [(ts[2], ts[3]), (ts[-1], ts[-2])]
+        for a_, b_ in pairs_:
+            try:
+                _kt(a_, b_, normalise=True)
+            except Exception:
+                pass
     res = SCm.is_single_crossing(inst)
     if not (isinstance(res, tuple) and len(res) == 2):
         return {"crash": "is_single_crossing returned %r" % (res,)}
@@ -582,7 +674,7 @@ def stats(c, r, m):
     lab = [f"verdict {v}", f"path {path} {v}", f"n={_bucket(n)}", f"m={mm if mm <= 6 else '>6'}",
            "gen " + str(c["tags"].get("gen", "exhaustive" if c["tags"].get("exh") else "sampled-m4"))]
     g = c["tags"].get("gen")
-    if g in ("chain-mid", "switchback", "star", "walk+1", "neg-core", "near"):
+    if g in ("chain-mid", "switchback", "star", "walk+1", "neg-core", "near", "fork"):
         lab.append(f"gen {g} {v} {path}")
     if g == "chain-mid":
         lab.append("chain-mid first stored %s, %s" % ("in the middle" if c["tags"].get("first_mid") else "at an end", path))
@@ -605,6 +697,9 @@ def stats(c, r, m):
             lab.append("info: _is_ordered_profile_single_crossing(stored order) %s sc_seq_check [%s]"
                        % ("==" if r[3] == mm_.get("seqcheck") else "!=", "accepted" if mm_.get("seqcheck") else "rejected"))
     lab.append("ids: " + ("contain 0" if 0 in pl[0] else "all positive") + (", huge (>= 2**31)" if max(pl[0]) >= 2 ** 31 else ""))
+    lab.append("ids mode: " + str(c["tags"].get("ids", "as generated")))
+    if c["tags"].get("hist"):
+        lab.append("history: kendall_tau_distance(normalise=True) called first, verdict " + v)
     if any(x > 1 for x in pl[2]):
         lab.append("multiplicities > 1")
     return lab
